@@ -959,7 +959,7 @@ def gen_rejected_history(rng, tabs):
     return steps
 
 
-def _run_step(conn, cur, how, text):
+def _run_step(conn, cur, how, text, params=None):
     import io
     from beanquery import query_execute
     try:
@@ -972,7 +972,7 @@ def _run_step(conn, cur, how, text):
             desc, rows = query_execute.execute_query(q)
             return [0, [d.name for d in desc], [repr(r) for r in rows]]
         c = cur if how == 'cursor' else conn.cursor()
-        c.execute(text, LEDGER_PARAMS.get(text))
+        c.execute(text, LEDGER_PARAMS.get(text) if params is None else params)
         return [0, [d.name for d in c.description], [repr(r) for r in c.fetchall()]]
     except Exception as e:  # noqa: BLE001
         return ['exception', impl.exc_class(e), str(e)[:120]]
@@ -1054,6 +1054,332 @@ def rejected_history_stream(tier, rng):
             hist['refusal_kinds_of_distinct_statements'][want[key][1]] += 1
     cov = {'rejected_statement_histories': len(hs), 'rejected_history_distinct_statements': len(keys),
            'rejected_history_histograms': hist, 'rejected_history_samples': [show_steps(h) for h in hs[:2]]}
+    return violations, cov
+
+
+# ---- (c4) connections over a LIST of directives the caller assembled (fix-F): beanquery.connect('beancount:', entries=...,
+# errors=[], options=...).  A list loaded from a file is in Beancount's canonical (date, directive type, line) order; a list
+# a caller merged, generated or re-ordered need not be (dates stay non-decreasing here, the directives of one day are
+# permuted).  "A result depends only on the statement, its parameters and the data ... executing never mutates the source
+# data": statements with the FROM qualifiers OPEN ON / CLOSE [ON] / CLEAR (SELECT, BALANCES, JOURNAL, PRINT) are interleaved
+# with plain statements whose result shows the order of the table (no ORDER BY, ties in ORDER BY, running balance, first /
+# last, LIMIT, PRINT).  Oracles: (1) every step = the same step alone on a fresh connection, in a fresh process, over the same
+# ORIGINAL list; (2) the caller's list holds the same objects in the same order after every step, and the value-based
+# fingerprint of the connection's tables (table_fingerprint) plus of the caller's list is unchanged by the history; (3) the
+# un-ordered posting register of a fresh connection is the fold of the caller's list, in list order.
+ENTRYLIST_REGISTER = 'SELECT date, narration, account, number'
+ENTRYLIST_PLAIN = [
+    ENTRYLIST_REGISTER,
+    'SELECT narration, number, balance WHERE account = %(account)s',
+    'SELECT date, narration, balance',
+    'SELECT first(narration) AS f, last(narration) AS l, first(number) AS n, last(number) AS m',
+    'SELECT account, first(narration) AS f, last(narration) AS l GROUP BY account ORDER BY account',
+    'SELECT date, first(narration) AS f, last(narration) AS l GROUP BY date ORDER BY date',
+    'SELECT narration ORDER BY date',
+    'SELECT narration, number ORDER BY date DESC, account',
+    'SELECT narration, number LIMIT 5',
+    'SELECT DISTINCT narration',
+    'SELECT narration, number WHERE account ~ %s AND number > %s',
+    "JOURNAL 'Checking'", 'JOURNAL', "JOURNAL 'Checking' AT units",
+    'SELECT date, type, lineno FROM #entries',
+    "SELECT date, narration FROM #entries WHERE type = 'transaction'",
+    'SELECT * FROM (SELECT date, narration, number WHERE number > 0)',
+    'PRINT', 'PRINT FROM year = 2020 AND month = 1',
+]
+ENTRYLIST_QUALIFIED = [
+    'SELECT account, sum(position) FROM OPEN ON {a} GROUP BY account ORDER BY account',
+    'SELECT date, narration, number, balance FROM OPEN ON {a} CLOSE ON {b}',
+    'SELECT date, narration FROM CLOSE ON {b} WHERE number > 0',
+    'SELECT account, sum(number) FROM CLOSE GROUP BY account ORDER BY account',
+    'SELECT account, sum(position) FROM CLEAR GROUP BY account ORDER BY account',
+    'SELECT count(*) FROM year = 2020 OPEN ON {a} CLOSE ON {b} CLEAR',
+    'SELECT account, sum(number) AS total FROM OPEN ON {a} CLOSE ON {b} WHERE account ~ %s GROUP BY account',
+    'SELECT account WHERE account IN (SELECT account FROM CLOSE ON {b})',
+    'BALANCES FROM OPEN ON {a}', 'BALANCES AT cost FROM CLOSE ON {b} CLEAR', 'BALANCES FROM CLOSE', 'BALANCES FROM CLEAR',
+    "JOURNAL 'Checking' FROM OPEN ON {a} CLOSE ON {b}", 'JOURNAL FROM CLEAR', "JOURNAL 'Checking' AT units FROM CLOSE",
+    'PRINT FROM OPEN ON {a}', 'PRINT FROM CLOSE ON {b}', 'PRINT FROM CLEAR', 'PRINT FROM year = 2020 CLOSE',
+]
+ENTRYLIST_PARAMS = {
+    'SELECT narration, number, balance WHERE account = %(account)s': {'account': 'Assets:Checking'},
+    'SELECT narration, number WHERE account ~ %s AND number > %s': ['Checking', 0],
+}
+ENTRYLIST_PERMS = ['swap-two-transactions-of-a-day', 'shuffle-each-day', 'reverse-each-day', 'transactions-first-each-day', 'canonical']
+_QUALIFIED_RE = re.compile(r'\b(OPEN ON|CLOSE|CLEAR)\b')
+
+
+def entrylist_params(text):
+    if text in ENTRYLIST_PARAMS:
+        return ENTRYLIST_PARAMS[text]
+    return ['Checking'] if '%s' in text else None
+
+
+def gen_entrylist_ledger(rng):
+    """ledger text: 5-9 days, 1-4 transactions per day on one shared account (the running balance and first / last show
+    their order), other directives (price, note, event, a purchase at cost) on the same days"""
+    day0 = datetime.date(2020, 1, 1)
+    lines = ['option "operating_currency" "USD"']
+    for a in ('Assets:Checking', 'Assets:Cash', 'Assets:Stock', 'Income:Salary', 'Expenses:Rent', 'Expenses:Food', 'Equity:Opening'):
+        lines.append(f'{day0} open {a}')
+    date = day0
+    n = 0
+    for _ in range(rng.randint(5, 9)):
+        date = date + datetime.timedelta(days=rng.choice([1, 3, 14, 31]))
+        block = []
+        for _ in range(rng.choice([1, 2, 2, 3, 3, 4])):
+            n += 1
+            amt = D(rng.randint(1, 40000)) / 100
+            other = rng.choice(['Income:Salary', 'Expenses:Rent', 'Expenses:Food', 'Assets:Cash'])
+            sign = -1 if other.startswith('Expenses') else rng.choice([1, -1])
+            flag = rng.choice(['*', '*', '!'])
+            payee = rng.choice(['', '"Shop" ', '"Employer" '])
+            block.append(f'{date} {flag} {payee}"T{n}"\n  Assets:Checking  {sign * amt} USD\n  {other}  {-sign * amt} USD')
+        r = rng.random()
+        if r < 0.3:
+            block.append(f'{date} price ABC {D(rng.randint(900, 1500)) / 100} USD')
+        elif r < 0.45:
+            block.append(f'{date} note Assets:Checking "statement {n}"')
+        elif r < 0.55:
+            block.append(f'{date} event "location" "city {n}"')
+        elif r < 0.75:
+            n += 1
+            k = rng.randint(1, 5)
+            block.append(f'{date} * "T{n}"\n  Assets:Stock  {k} ABC {{10.00 USD}}\n  Assets:Checking  {-10 * k}.00 USD')
+        rng.shuffle(block)
+        lines += block
+    return '\n'.join(lines) + '\n'
+
+
+def entrylist_perm(rng, entries, kind):
+    """index permutation of the loaded (canonical) list that keeps the dates non-decreasing"""
+    from beancount.core import data as bdata
+    groups = []
+    for i, e in enumerate(entries):
+        if groups and entries[groups[-1][0]].date == e.date:
+            groups[-1].append(i)
+        else:
+            groups.append([i])
+    if kind == 'swap-two-transactions-of-a-day':
+        cands = [[i for i in g if isinstance(entries[i], bdata.Transaction)] for g in groups]
+        cands = [c for c in cands if len(c) >= 2]
+        if cands:
+            c = rng.choice(cands)
+            x, y = rng.sample(c, 2)
+            perm = list(range(len(entries)))
+            perm[x], perm[y] = perm[y], perm[x]
+            return perm
+        kind = 'reverse-each-day'
+    out = []
+    for g in groups:
+        g = list(g)
+        if kind == 'shuffle-each-day':
+            rng.shuffle(g)
+        elif kind == 'reverse-each-day':
+            g.reverse()
+        elif kind == 'transactions-first-each-day':
+            g.sort(key=lambda i: (not isinstance(entries[i], bdata.Transaction), -i))
+        out += g
+    return out
+
+
+def gen_entrylist_history(rng, dates):
+    """3-7 steps [how, statement text]; at least one qualified statement followed by a plain one"""
+    def qualified():
+        a, b = sorted(rng.sample(dates, 2))
+        return rng.choice(ENTRYLIST_QUALIFIED).format(a=a, b=b)
+
+    def how_for(text):
+        if text.startswith('PRINT'):
+            return rng.choice(['shell', 'shell', 'execute'])          # a cursor refuses PRINT: the refusal is compared too
+        if '%' in text:
+            return rng.choice(['execute', 'cursor', 'parsed', 'many'])
+        return rng.choice(['execute', 'execute', 'cursor', 'cursor', 'shell', 'parsed', 'many'])
+    texts = []
+    if rng.random() < 0.5:
+        texts.append(rng.choice(ENTRYLIST_PLAIN))
+    texts.append(qualified())
+    for _ in range(rng.randint(1, 4)):
+        texts.append(qualified() if rng.random() < 0.35 else rng.choice(ENTRYLIST_PLAIN))
+    if _QUALIFIED_RE.search(texts[-1]):
+        texts.append(rng.choice(ENTRYLIST_PLAIN[:11]))
+    if rng.random() < 0.3:
+        texts.append(texts[0])
+    return [[how_for(t), t] for t in texts]
+
+
+def _entrylist_open(text, perm):
+    """-> (connection over the caller's list, the caller's list object, a private copy of the list as it was handed over)"""
+    from beancount import loader
+    entries, errors, options = loader.load_string(text)
+    original = [entries[i] for i in perm]
+    caller = list(original)
+    conn = impl.beanquery.connect('beancount:', entries=caller, errors=[], options=options)
+    return conn, caller, original
+
+
+def _entrylist_step(conn, cur, parsed, how, text):
+    params = entrylist_params(text)
+    if how in ('execute', 'cursor', 'shell'):
+        return _run_step(conn, cur, how, text, params)
+    try:
+        c = conn.cursor()
+        if how == 'parsed':          # the statement is parsed once per connection and the parsed statement re-executed
+            if text not in parsed:
+                parsed[text] = conn.parse(text)
+            c.execute(parsed[text], params)
+        else:                        # executemany with the same parameter set twice: the cursor holds the last execution
+            c.executemany(text, [params, params])
+        return [0, [d.name for d in c.description], [repr(r) for r in c.fetchall()]]
+    except Exception as e:  # noqa: BLE001
+        return ['exception', impl.exc_class(e), str(e)[:120]]
+
+
+def _entrylist_fingerprint(conn, caller):
+    fp = table_fingerprint(conn)
+    fp['(caller)'] = {'list handed to connect()': _freeze(caller)}
+    return fp
+
+
+def _entrylist_got(case):
+    """the history on ONE connection -> (step results, index of the first step after which the caller's list no longer holds
+    the same objects in the same order | None, fingerprint differences before/after)"""
+    conn, caller, original = _entrylist_open(case['ledger'], case['perm'])
+    before = _entrylist_fingerprint(conn, caller)
+    cur, parsed, outs, moved = conn.cursor(), {}, [], None
+    for k, (how, text) in enumerate(case['steps']):
+        outs.append(_entrylist_step(conn, cur, parsed, how, text))
+        if moved is None and not (len(caller) == len(original) and all(a is b for a, b in zip(caller, original))):
+            moved = k
+    return outs, moved, fingerprint_diff(before, _entrylist_fingerprint(conn, caller))
+
+
+def _entrylist_fresh(key):
+    """(ledger text, perm, route, statement) alone on a fresh connection over the same original list, in a FRESH PROCESS ->
+    (result, None | description of how the un-ordered register differs from the fold of the list)"""
+    from beancount.core import data as bdata
+    text, perm, route, stmt = key
+    conn, caller, original = _entrylist_open(text, list(perm))
+    fold_bad = None
+    if stmt == ENTRYLIST_REGISTER:
+        want = [(e.date, e.narration, p.account, p.units.number) for e in original if isinstance(e, bdata.Transaction) for p in e.postings]
+        got = [tuple(r) for r in conn.execute(stmt).fetchall()]
+        if got != want:
+            k = next((i for i, (x, y) in enumerate(zip(got, want)) if x != y), min(len(got), len(want)))
+            fold_bad = f'row {k}: {got[k] if k < len(got) else None!r} but the list handed to connect() says {want[k] if k < len(want) else None!r}'
+        conn, caller, original = _entrylist_open(text, list(perm))
+    return _entrylist_step(conn, conn.cursor(), {}, 'shell' if route == 'shell' else 'execute', stmt), fold_bad
+
+
+def entrylist_check(case, ignore_mutation=False):
+    """-> None when the property holds on this case, else (kind, step index, message, got, fresh); ignore_mutation: look at
+    the step results only (used to report the CONSEQUENCE of a mutation already reported: a later statement changes)"""
+    key = lambda how, t: (case['ledger'], tuple(case['perm']), _route(how), t)
+    keys = sorted({key(how, t) for how, t in case['steps']})
+    want = dict(zip(keys, fresh_process_map(_entrylist_fresh, keys)))
+    got, moved, diff = fresh_process_map(_entrylist_got, [case])[0]
+    exp = [want[key(how, t)][0] for how, t in case['steps']]
+    if (moved is not None or diff) and not ignore_mutation:
+        return ('entry-list-mutated', moved if moved is not None else len(got) - 1,
+                f'the list handed to connect() was re-ordered in place by step {moved}' if moved is not None else f'fingerprint: {diff[:4]}', got, exp)
+    if got != exp:
+        k = next(i for i, (g, w) in enumerate(zip(got, exp)) if g != w)
+        return ('entry-list-history', k, f'step {k} gives {str(got[k])[:300]} but alone on a fresh connection over the same list {str(exp[k])[:300]}', got, exp)
+    for k, (how, t) in enumerate(case['steps']):
+        if want[key(how, t)][1]:
+            return ('entry-list-order', k, want[key(how, t)][1], got, exp)
+    return None
+
+
+def entrylist_stream(tier, rng):
+    from . import shrink
+    from beancount import loader
+    from beancount.core import data as bdata
+    quick = tier == 'quick'
+    n_ledgers, per_ledger = (4, 14) if quick else (30, 30)
+    cases = []
+    hist = {'permutation': {}, 'lists_not_in_canonical_order': 0, 'how': {}, 'qualified_steps': 0, 'plain_steps': 0,
+            'plain_steps_after_a_qualified_step': 0, 'statement_kind': {}, 'length': {}, 'register_vs_fold_checked': 0,
+            'directive_types_permuted': {}}
+    for _ in range(n_ledgers):
+        text = gen_entrylist_ledger(rng)
+        entries, errors, _ = loader.load_string(text)
+        if errors:
+            raise RuntimeError(f'entry-list ledger does not load: {errors[:2]}')
+        dates = sorted({e.date for e in entries if isinstance(e, bdata.Transaction)})
+        perms = {}
+        for _ in range(per_ledger):
+            kind = rng.choice(ENTRYLIST_PERMS[:4]) if rng.random() < 0.9 else 'canonical'
+            if kind not in perms or rng.random() < 0.3:
+                perms[kind] = entrylist_perm(rng, entries, kind)
+            perm = perms[kind]
+            cases.append({'ledger': text, 'perm': perm, 'perm_kind': kind, 'steps': gen_entrylist_history(rng, dates)})
+            hist['permutation'][kind] = hist['permutation'].get(kind, 0) + 1
+            srt = sorted(range(len(entries)), key=lambda i: bdata.entry_sortkey(entries[perm[i]]))
+            hist['lists_not_in_canonical_order'] += srt != list(range(len(entries)))
+            for i, j in enumerate(perm):
+                if i != j:
+                    tn = type(entries[j]).__name__
+                    hist['directive_types_permuted'][tn] = hist['directive_types_permuted'].get(tn, 0) + 1
+    keyf = lambda c, how, t: (c['ledger'], tuple(c['perm']), _route(how), t)
+    violations_pre = []
+    keys = sorted({keyf(c, how, t) for c in cases for how, t in c['steps']}
+                  | {keyf(c, 'execute', ENTRYLIST_REGISTER) for c in cases})          # oracle (3) once per distinct list
+    want = dict(zip(keys, fresh_process_map(_entrylist_fresh, keys)))
+    for key_ in keys:
+        if key_[3] == ENTRYLIST_REGISTER and want[key_][1] and not any(v.kind == 'entry-list-order' for v in violations_pre):
+            violations_pre.append(core.Violation(
+                'entry-list-order', f'fresh connection over a list of directives handed to connect(): {ENTRYLIST_REGISTER}: {want[key_][1]}',
+                {'kind': 'entry-list', 'problem': 'entry-list-order', 'ledger': key_[0], 'perm': list(key_[1]),
+                 'steps': [['execute', ENTRYLIST_REGISTER]]}, signature='entry-list-order:' + ENTRYLIST_REGISTER))
+    hist['register_vs_fold_checked'] = sum(1 for k in keys if k[3] == ENTRYLIST_REGISTER)
+    gots = fresh_process_map(_entrylist_got, cases)
+    violations, seen = violations_pre, set()
+    for c, (got, moved, diff) in zip(cases, gots):
+        hist['length'][len(c['steps'])] = hist['length'].get(len(c['steps']), 0) + 1
+        qual = False
+        for how, t in c['steps']:
+            hist['how'][how] = hist['how'].get(how, 0) + 1
+            isq = bool(_QUALIFIED_RE.search(t))
+            hist['qualified_steps'] += isq
+            hist['plain_steps'] += not isq
+            hist['plain_steps_after_a_qualified_step'] += (not isq) and qual
+            qual = qual or isq
+            sk = t.split()[0].upper()
+            hist['statement_kind'][sk] = hist['statement_kind'].get(sk, 0) + 1
+        exp = [want[keyf(c, how, t)][0] for how, t in c['steps']]
+        if got == exp and moved is None and not diff:
+            continue              # (a register that is not the fold of the list was reported above, once)
+        if len(seen) >= 3:
+            continue
+        # shrink the history: the steps before the offending one, as long as the same kind of failure remains
+        # one report of the mutation itself; further failing histories are reported by their changed results
+        ign = any(v.kind == 'data-mutated' for v in violations) and got != exp
+        first = entrylist_check(c, ign)
+        if first is None:
+            continue
+        kind, k = first[0], first[1]
+        steps = [list(s) for s in c['steps'][:k + 1]]
+        if k >= 1 and kind != 'entry-list-order':
+            def fails_many(cands, last=steps[-1], kind=kind, ign=ign):
+                res = [entrylist_check(dict(c, steps=cd + [last]), ign) for cd in cands]
+                return [r is not None and r[0] == kind and r[1] == len(cd) for r, cd in zip(res, cands)]
+            steps = ([] if fails_many([[]])[0] else shrink.ddmin_batch(steps[:-1], fails_many)) + [steps[-1]]
+        elif kind == 'entry-list-order':
+            steps = [steps[-1]]
+        small = dict(c, steps=steps)
+        res = entrylist_check(small, ign) or first
+        sig = f'{res[0]}:{c["perm_kind"]}:' + show_steps([tuple(s) for s in steps])
+        if sig in seen:
+            continue
+        seen.add(sig)
+        order = [f'{e.date} {type(e).__name__} {getattr(e, "narration", "")}'.strip() for e in (loader.load_string(c['ledger'])[0][i] for i in c['perm'])]
+        violations.append(core.Violation(
+            'data-mutated' if res[0] == 'entry-list-mutated' else res[0],
+            f'connection over a list of directives handed to connect() ({c["perm_kind"]}; dates non-decreasing), history '
+            f'{show_steps([tuple(s) for s in steps])}: {res[2]}',
+            {'kind': 'entry-list', 'problem': res[0], 'ledger': c['ledger'], 'perm': list(c['perm']), 'perm_kind': c['perm_kind'],
+             'list_order': order, 'steps': steps, 'got': res[3], 'fresh': res[4]}, signature=sig))
+    cov = {'entry_list_histories': len(cases), 'entry_list_ledgers': n_ledgers, 'entry_list_distinct_fresh_executions': len(keys),
+           'entry_list_histograms': hist, 'entry_list_samples': [c['perm_kind'] + ': ' + show_steps([tuple(s) for s in c['steps']]) for c in cases[:2]]}
     return violations, cov
 
 
@@ -1152,6 +1478,8 @@ def run(tier, rng):
                                              param_record(c), signature=sig))
     rviol, rcov = rejected_history_stream(tier, rng)
     violations.extend(rviol)
+    eviol, ecov = entrylist_stream(tier, rng)        # (fix-F) drawn last: the streams above see the random numbers they saw before
+    violations.extend(eviol)
     nph_hist, folded_n, hist_ops = {}, 0, {}
     for c, (wp, wl) in zip(pc, p_impl):
         nph_hist[c['nph']] = nph_hist.get(c['nph'], 0) + 1
@@ -1205,8 +1533,8 @@ def run(tier, rng):
     nontrivial = len({c['ptext'] + repr(c['params']) for c in pc if c['nph'] >= 2}) + \
         len({show_history(h) for h in hs if sum(o[0] in ('exec_ast', 'exec_many') for o in h) >= 2})
     cov = {
-        'evaluations': len(pc) + len(fc) + len(hs) + nwork + len(bc) + len(sc) + len(lh) + len(scases) + len(lc) + rcov['rejected_statement_histories'],
-        'list_parameter_cases': len(lc), 'list_parameter_histogram': list_hist, 'ledger_param_statements': nlp, **rcov,
+        'evaluations': len(pc) + len(fc) + len(hs) + nwork + len(bc) + len(sc) + len(lh) + len(scases) + len(lc) + rcov['rejected_statement_histories'] + ecov['entry_list_histories'],
+        **ecov, 'list_parameter_cases': len(lc), 'list_parameter_histogram': list_hist, 'ledger_param_statements': nlp, **rcov,
         'binding_order_cases': len(bc), 'same_cursor_histories': len(sc), 'ledger_histories': len(lh),
         'ledger_lookup_histories': len(lkh), 'ledger_lookup_statements': len(LOOKUP_STATEMENTS), 'ledger_reader_statements': len(READER_STATEMENTS),
         'ledger_history_lookup_then_reader_pairs': sum(1 for h in lh for x, y in zip(h, h[1:]) if nst <= x < nst + len(LOOKUP_STATEMENTS) <= y),
@@ -1226,7 +1554,13 @@ def run(tier, rng):
                 '(d) ledger entries and every data container / the iterated rows of every table object of the connection deep-compared '
                 'before/after a workload (incl. account / commodity / price look-ups of keys without a directive); (c3) such look-ups '
                 'followed by readers of #accounts / #commodities / #prices in ledger histories, and look-ups made while the consulted '
-                'table is scanned vs the same look-up key by key; non-trivial = distinct '
+                'table is scanned vs the same look-up key by key; (c4) connections built from a LIST of directives whose same-day directives '
+                'are permuted (not the loader\'s canonical order): statements with OPEN ON / CLOSE / CLEAR (SELECT, BALANCES, JOURNAL, PRINT) '
+                'interleaved with order-sensitive plain statements (no ORDER BY, ties, balance, first/last, LIMIT, PRINT) through execute, '
+                'one shared cursor, the shell route, a statement parsed once and executemany: every step = the step alone on a fresh '
+                'connection in a fresh process over the same original list, the caller\'s list keeps its objects in their order, the '
+                'value-based fingerprint of the tables and of the caller\'s list is unchanged, and the un-ordered register is the fold of '
+                'the list in list order; non-trivial = distinct '
                 'statement with >=2 placeholders or history with >=2 executions of a stored/parsed-once statement',
         'samples': [pc[0]['ptext'] + ' ' + repr(pc[0]['params']), 'SELECT ' + fc[0]['littext'], show_history(hs[2])],
         'traces_validated_against_impl': len(hs), 'placeholder_count_histogram': nph_hist,
@@ -1261,6 +1595,8 @@ def replay(rec):
         return fresh_process_map(_history_got, [idx])[0] == fresh_process_map(_fresh_stmt, idx)
     if rec.get('kind') == 'param-case':
         return replay_param_record(rec)
+    if rec.get('kind') == 'entry-list':
+        return entrylist_check({'ledger': rec['ledger'], 'perm': list(rec['perm']), 'steps': [list(x) for x in rec['steps']]}) is None
     if rec.get('kind') == 'rejected-history':
         steps = [tuple(x) for x in rec['steps']]
         fresh = fresh_process_map(_fresh_step, [(_route(how), text) for how, text in steps])
